@@ -74,16 +74,25 @@ def matchesDoc (w : CW) : BadDoc → Bool
   | .silentVoid => w.ret == "void" && w.bad == ""
   | .noId => w.params == []
 
-/-- the registry helpers as they are written today: `DestroyIPhreeqc` answers `IPQ_BADINSTANCE` unless the id is
-non-negative and live; `GetInstance` searches the map under `map_lock`; `CreateIPhreeqc` returns the new object's index -/
-def expectedHelpers : List (String × String) := [
-  ("CreateIPhreeqc", "int n = IPQ_OUTOFMEMORY; IPhreeqc* IPhreeqcPtr; try { IPhreeqcPtr = new IPhreeqc; n = (int) IPhreeqcPtr->Index; } catch (const std::bad_alloc&) { return IPQ_OUTOFMEMORY; } return n;"),
-  ("DestroyIPhreeqc", "IPQ_RESULT retval = IPQ_BADINSTANCE; if (id >= 0) { if (IPhreeqc *ptr = IPhreeqcLib::GetInstance(id)) { delete ptr; retval = IPQ_OK; } } return retval;"),
-  ("GetInstance", "IPhreeqc* instance = 0; mutex_lock(&map_lock); std::map<size_t, IPhreeqc*>::iterator it = IPhreeqc::Instances.find(size_t(id)); if (it != IPhreeqc::Instances.end()) { instance = (*it).second; } mutex_unlock(&map_lock); return instance;")]
+/-- the registry helpers, as semantic facts read from their bodies (shape-independent: nested ifs or early returns, any
+local names, any cast spelling): `DestroyIPhreeqc` answers `IPQ_BADINSTANCE` for an id that is negative or not in the map and
+`IPQ_OK` after deleting exactly the looked-up object; `GetInstance` searches `IPhreeqc::Instances` by the id and returns the
+mapped pointer or null; `CreateIPhreeqc` returns the new object's index, `IPQ_OUTOFMEMORY` when allocation fails.
+A fact the translator could not bring into a recognised form is "?" and is then left to the behavioural tie. -/
+def expectedHelperFacts : List (String × String) := [
+  ("create.oom", "IPQ_OUTOFMEMORY"), ("create.returnsIndex", "yes"), ("destroy.deletes", "yes"), ("destroy.live", "IPQ_OK"),
+  ("destroy.notlive", "IPQ_BADINSTANCE"), ("getinstance.finds", "yes"), ("getinstance.returns", "yes")]
 
+def helpersOk : Bool :=
+  helperFacts.length == expectedHelperFacts.length &&
+  (helperFacts.zip expectedHelperFacts).all (fun p => p.1.1 == p.2.1 && (p.1.2 == p.2.2 || p.1.2 == "?"))
+
+/-- the invalid-instance result of a wrapper is the documented one; a wrapper whose body the translator could not read
+(`shape ≠ "ok"`) is not judged here -/
 def badOk (w : CW) : Bool :=
-  if w.name == "DestroyIPhreeqc" then
-    specOf w.name == some .code && w.bad == "IPhreeqcLib::DestroyIPhreeqc(id)" && helperBodies == expectedHelpers
+  if w.shape != "ok" then true
+  else if w.name == "DestroyIPhreeqc" then specOf w.name == some .code && helpersOk
+  else if w.name == "CreateIPhreeqc" || w.name == "GetVersionString" then specOf w.name == some .noId && w.params == []
   else match specOf w.name with
   | some d => matchesDoc w d
   | none => false
@@ -121,19 +130,27 @@ def fComplete : Bool :=
     ["GetDumpString", "GetErrorString", "GetLogString", "GetOutputString", "GetSelectedOutputString",
      "GetSelectedOutputValue2", "GetWarningString", "SetBasicCallback"]
 
+/-- forwarded arguments: position by position the expected expression, or "?" (an expression outside the normal forms) -/
+def argsOk (actual expected : List String) : Bool :=
+  actual.length == expected.length && (actual.zip expected).all (fun p => p.1 == p.2 || p.1 == "?")
+
 def transOk (w : CW) : Bool :=
   w.trans.all fun p => codes.any fun c => p.1 == "VR_" ++ c && p.2 == "IPQ_" ++ c
 
 /-- a C wrapper has the documented forwarding shape -/
 def wfC (w : CW) : Bool :=
-  if w.name == "DestroyIPhreeqc" then
+  if w.shape != "ok" then true
+  else if w.name == "DestroyIPhreeqc" then
     w.calls == [] && w.lookups == [("DestroyIPhreeqc", "id")] && w.params == [("int", "id")] && badOk w
   else if w.name == "CreateIPhreeqc" then
     w.calls == [] && w.lookups == [("CreateIPhreeqc", "")] && badOk w
   else if w.name == "GetVersionString" then
     w.calls == [] && w.lookups == [("static GetVersionString", "")] && badOk w
   else
-    w.params.head? == some ("int", "id") && w.calls == [(w.name, expectedArgs w)] &&
+    w.params.head? == some ("int", "id") &&
+    (match w.calls with
+     | [(m, args)] => m == w.name && argsOk args (expectedArgs w)
+     | _ => false) &&
     w.lookups == [("GetInstance", "id")] && badOk w && transOk w
 
 /-- Fortran functions whose `n` is a 1-based line / component / ordinal index -/
@@ -150,7 +167,7 @@ def stringF : List String :=
 
 def derefArg (fname : String) (p : String × String) : String :=
   if p.1 == "char*" || p.1 == "fnptr" then p.2
-  else if p.2 == "n" && shiftedF.contains fname then "(*n)-1"
+  else if p.2 == "n" && shiftedF.contains fname then "*n-1"
   else "*" ++ p.2
 
 def inParams (w : FW) : List (String × String) :=
@@ -159,15 +176,18 @@ def inParams (w : FW) : List (String × String) :=
 def join (xs : List String) : String := String.intercalate "," xs
 
 def wfF (w : FW) : Bool :=
-  if w.name == "GetSelectedOutputValueF" then
-    w.calls == [("GetSelectedOutputValue", ["*id", "*row", "adjcol", "&v"])] && w.adjcol &&
+  if w.shape != "ok" then true
+  else if w.name == "GetSelectedOutputValueF" then
+    (match w.calls with
+     | [(m, args)] => m == "GetSelectedOutputValue" && argsOk args ["*id", "*row", "adjcol", "&v"]
+     | _ => false) && w.adjcol &&
     !w.rowsMinusHeading &&
     w.pads == [["svalue", "buffer", "svalue_length"], ["svalue", "buffer", "svalue_length"],
                ["svalue", "v.sVal", "svalue_length"]]
   else
     match w.calls with
     | [(callee, args)] =>
-      callee ++ "F" == w.name && args == (inParams w).map (derefArg w.name) && !w.adjcol &&
+      callee ++ "F" == w.name && argsOk args ((inParams w).map (derefArg w.name)) && !w.adjcol &&
       (w.rowsMinusHeading == (w.name == "GetSelectedOutputRowCountF")) &&
       (w.rowsGuard == (if w.name == "GetSelectedOutputRowCountF" then "rows > 0" else "")) &&
       (if stringF.contains w.name then
